@@ -54,6 +54,12 @@ func genBad(r *Rng, o Opt) Entry {
 		// under ZIP-215 a torsion signature is valid; make it bad by the scalar
 		e.K = "smA"
 	}
+	if o.Hash == 1 && r.Chance(1, 6) {
+		e.K = "phLen"
+	}
+	if !o.Zip && r.Chance(1, 8) {
+		e.K = []string{"tor0", "smRv", "smRv"}[r.Intn(3)]
+	}
 	if k == "fS" && r.Chance(1, 3) {
 		e.P = 248 + r.Intn(8) // the top bits: S >= 2^253 classes
 	}
@@ -62,7 +68,11 @@ func genBad(r *Rng, o Opt) Entry {
 
 func genGood(r *Rng, o Opt, i int) Entry {
 	e := Entry{K: "ok"}
-	switch r.Pick(14, 2, 2, 2) {
+	switch r.Pick(14, 2, 2, 2, 2) {
+	case 4:
+		if o.Zip {
+			e = Entry{K: []string{"tor0", "smRv"}[r.Intn(2)], P: r.Intn(1 << 16), Q: r.Intn(1 << 16)}
+		}
 	case 1:
 		if i > 0 {
 			e = Entry{K: "dup", P: r.Intn(1 << 16)}
@@ -236,7 +246,7 @@ func genBatchCase(prop string, r *Rng) *Case {
 func allGoodKinds(es []Entry) bool {
 	for _, e := range es {
 		switch e.K {
-		case "ok", "dup", "mix", "tor":
+		case "ok", "dup", "mix", "tor", "tor0", "smRv":
 		default:
 			return false
 		}
@@ -268,7 +278,9 @@ func enumBatchFaults(prop string) []*Case {
 				base.Entries[n/2].K = "msg"
 			}
 			base.Rd = &DevPlan{CSeed: mix64(uint64(n))}
-			dry := execOp(prepare(base))
+			dp := prepare(base)
+			dry := execOp(dp)
+			dp.G.Release()
 			if dry.Dev == nil {
 				continue
 			}
@@ -372,6 +384,7 @@ func sizeClass(n int) string {
 func checkBatch(c *Case, v *Verdict) {
 	op := c.Op
 	p := prepare(op)
+	defer p.G.Release()
 	n := len(p.keys)
 	countsOK := len(p.keys) == len(p.msgs) && len(p.msgs) == len(p.sigs)
 	ctxTooLong := op.Opt.Ctx > 255
